@@ -1,148 +1,12 @@
 """C01 — programs compute what NumPy computes (E1)."""
+from mc import e1check as X
+from mc import monitors as M
 
-from __future__ import annotations
-
-import numpy as np
-
-from mc import explorer as E
-from mc import ops as OPS
-
-PROPERTY = "C01"
-
-
-def _blocks(y):
-    try:
-        return int(np.prod(y.numblocks)) if y.numblocks else 1
-    except Exception:
-        return 1
-
-
-def _judge(y, ref, exact, check_dtype):
-    """(kind, tag, message) or None for one collection against its NumPy value."""
-    try:
-        val = y.compute(scheduler="sync")
-    except NotImplementedError:
-        return ("refused", "", "")
-    except Exception as e:
-        return ("compute-raise", E.exc_sig(e), f"NumPy gives {E._short(ref)} but compute() raised {type(e).__name__}: {str(e)[:300]}")
-    if tuple(y.shape) != np.shape(ref) and not any(s != s for s in y.shape):
-        return ("meta-shape", "", f"advertised shape {y.shape} != numpy {np.shape(ref)}")
-    bad = E.compare(val, ref, exact=exact, dtype=check_dtype)
-    if bad:
-        return (bad[0], "", bad[1])
-    return None
-
-
-def monitor(ctx):
-    y, ref = ctx.y, ctx.ref
-    out = ctx.out
-    out.count("evaluations")
-    multi = any(_blocks(d) > 1 for d in ctx.dpool)
-    if multi and ctx.case["steps"]:
-        out.count("nontrivial")
-    exact, cd = ctx.exact, ctx.check_dtype
-    j = _judge(y, ref, exact, cd)
-    if j is None:
-        out.dcount("outcome_shapes", str(np.shape(ref)))
-        return []
-    kind, tag, msg = j
-    if kind == "refused":
-        # a lazily raised NotImplementedError (e.g. dtype inference of an
-        # unsupported elemwise) is a loud refusal, not wrong data
-        out.count("refused_at_compute")
-        out.dcount("refused_by_type", "NotImplementedError@compute:" + E.op_path(ctx.case).split(">")[-1])
-        return []
-
-    def again(y2, ref2):
-        j2 = _judge(y2, ref2, exact, cd)
-        return j2 is not None and j2[0] == kind and j2[1] == tag
-
-    path = E.minimal_path(ctx, again)
-    sig = f"{kind}:{tag + ':' if tag else ''}{path}"
-    return [{"kind": kind, "signature": sig, "detail": msg}]
-
-
-def sources(tier):
-    from mc.domains import compositions
-
-    S = []
-    if tier == "quick":
-        for c in [(6,), (2, 1, 3), (1, 1, 1, 1, 1, 1), (4, 2), (3, 3)]:
-            S.append(E.src((6,), (c,)))
-        for c0, c1 in [((3,), (4,)), ((1, 2), (2, 2)), ((2, 1), (1, 3)), ((1, 1, 1), (3, 1))]:
-            S.append(E.src((3, 4), (c0, c1)))
-        S.append(E.src((1,), ((1,),)))
-        S.append(E.src((0,), ((0,),)))
-        S.append(E.src((2, 3, 2), ((1, 1), (2, 1), (2,))))
-        S.append(E.src((6,), ((2, 2, 2),), "i8"))
-    else:
-        S += E.sources_1d(6)
-        S += E.sources_2d((3, 4))
-        for shp, ch in [((0,), ((0,),)), ((1,), ((1,),)), ((0, 3), ((0,), (1, 2))), ((1, 4), ((1,), (2, 2))), ((2, 3, 2), ((1, 1), (2, 1), (2,))), ((2, 3, 2), ((2,), (1, 1, 1), (1, 1))), ((4, 4), ((2, 2), (1, 3)))]:
-            S.append(E.src(shp, ch))
-        for c in [(6,), (2, 1, 3), (3, 3), (1, 2, 2, 1)]:
-            S.append(E.src((6,), (c,), "i8"))
-        S.append(E.src((3, 4), ((1, 2), (2, 2)), "i8"))
-        S.append(E.src((6,), ((2, 2, 2),), "c16"))
-        S.append(E.src((6,), ((2, 1, 3),), "f4"))
-        S.append(E.src((6,), ((3, 3),), "bool"))
-    return S
-
-
-def plan(tier, seed):
-    S = sources(tier)
-    if tier == "quick":
-        ops = OPS.REWRITE
-        shards = E.plan_shards(S, ops, 2)
-        bounds = {"depth": 2, "alphabet": "rewrite-active", "ops": len(ops), "sources": len(S)}
-    else:
-        shards = E.plan_shards(S, OPS.ALL, 2)
-        # depth 3 over a compact rewrite-active alphabet on a subset of sources
-        d3 = OPS.subset(names=D3_OPS)
-        S3 = [s for i, s in enumerate(S) if i % 6 == 0][:16]
-        shards += E.plan_shards(S3, d3, 3, binary=False)
-        bounds = {"depth2": {"ops": len(OPS.ALL), "sources": len(S)}, "depth3": {"ops": len(d3), "sources": len(S3), "binary": False}}
-    return {
-        "shards": shards,
-        "coverage": {"bounds": bounds, "exhaustive": True, "rule": "all programs (ancestry DAGs) up to the depth bound over the op alphabet from every listed source; a state is distinct by structural hash of its raw expression tree; non-trivial = some node of the program has > 1 block and the program has >= 1 op"},
-        "assumptions": ["NumPy evaluation of the same op sequence is the reference model", "small scope: axis length <= 6, rank <= 3, depth <= 2 (3 on the compact alphabet)", "synchronous scheduler"],
-    }
-
-
-D3_OPS = [
-    "sl_1_4", "sl_s2", "sl_rev", "ix_1", "sl2_a", "tk_201", "add1", "add_row", "T", "rs_m1", "exp0", "flip0",
-    "cat_parts", "stack0", "rc2", "rc_all", "rc3", "sum0", "mean_se2", "argmax0", "cumsum0", "swv2_sum", "swv3_max", "diff", "mb_double", "bcast",
-]
-
-
-def run_shard(shard):
-    ex = E.Explorer(shard, monitor)
-    return ex.run().result()
-
-
-def coverage(agg, plan):
-    c = agg.counters
-    return {
-        "states": len(agg.sets.get("state_keys", ())),
-        "transitions": c["transitions"],
-        "traces_validated_against_impl": c["evaluations"],
-        "evaluations": c["evaluations"],
-        "distinct_nontrivial": c["nontrivial"],
-        "distinct_outcomes": len(agg.dicts.get("outcome_shapes", {})),
-    }
-
-
-def vacuity(agg, plan):
-    c = agg.counters
-    v = []
-    if c["evaluations"] < 1000:
-        v.append(f"only {c['evaluations']} programs evaluated")
-    if c["nontrivial"] < c["evaluations"] // 4:
-        v.append("fewer than a quarter of programs have a multi-block node")
-    if len(agg.dicts.get("outcome_shapes", {})) < 5:
-        v.append("fewer than 5 distinct outcome shapes")
-    return v
-
-
-def replay(case):
-    return E.replay_program(case, monitor)
+_m = X.make(
+    "C01", M.judge_c01,
+    quick=X.std_quick(), thorough=X.std_thorough(),
+    rule="all programs (ancestry DAGs) up to the depth bound over the op alphabet from every listed source; a state is distinct by structural hash of its raw expression tree; non-trivial = some node of the program has > 1 block and the program has >= 1 op",
+    assumptions=["NumPy evaluation of the same op sequence is the reference model", "small scope: axis length <= 6, rank <= 3, depth <= 2 (3 on the compact alphabet)", "synchronous scheduler"],
+    floors={"evaluations": 1000},
+)
+globals().update(_m)
